@@ -46,6 +46,7 @@ pub fn guarded<T>(f: impl FnOnce() -> T) -> Option<T> {
 }
 
 pub fn silence_panics() {
+    if std::env::var("VERIF_PANIC_VERBOSE").is_ok() { return; }
     std::panic::set_hook(Box::new(|_| {}));
 }
 
